@@ -10,24 +10,31 @@
 (* RwLock semantics are parking_lot's: fair — a reader blocks while a      *)
 (* writer holds OR waits (so recursive read acquisition can deadlock).     *)
 (***************************************************************************)
-EXTENDS Naturals, Sequences, FiniteSets
+EXTENDS Naturals, Sequences, FiniteSets, TLC
 
 CONSTANTS ProtosIn,    \* Seq(Seq([op: STRING, lock: STRING]))  op in {"r_acq","r_rel","w_acq","w_rel","m_acq","m_rel"}
+          ViewsIn,     \* Seq([op: STRING, proto: Seq([op, lock])]): the WHOLE protocol of each recorded call, by name
           NThreads,
           OpsPerThread
+(* ProtosIn holds the SECTIONS of the recorded calls: a call's protocol is cut wherever the thread holds no  *)
+(* lock at all.  A thread that is between two sections of a call holds nothing and waits for nothing, so it   *)
+(* is part of no wait cycle: a deadlock of whole calls exists iff one exists among threads that each run one  *)
+(* section, and identical sections of different calls need to be explored once.                              *)
 
 Threads == 1..NThreads
 VARIABLES Protos,  \* = ProtosIn, read once (the constant comes from a file)
+          Views,   \* = ViewsIn, read once
           pc,      \* [t -> [p: protocol index or 0, i: next step, done: ops finished]]
           readers, \* [lock -> bag as function thread -> count]
           writer,  \* [lock -> thread or 0]
           wq       \* [lock -> set of threads waiting to write]
-vars == <<Protos, pc, readers, writer, wq>>
+vars == <<Protos, Views, pc, readers, writer, wq>>
 LockNames == DOMAIN writer
 
 Init == \E P \in {ProtosIn} :
         LET names == UNION {{P[i][j].lock : j \in 1..Len(P[i])} : i \in 1..Len(P)} IN
         /\ Protos = P
+        /\ Views \in {ViewsIn}
         /\ pc = [t \in Threads |-> [p |-> 0, i |-> 1, done |-> 0]]
         /\ readers = [l \in names |-> [t \in Threads |-> 0]]
         /\ writer = [l \in names |-> 0]
@@ -65,7 +72,7 @@ Step(t) ==
           [] c.op \in {"w_rel", "m_rel"} -> /\ writer' = [writer EXCEPT ![c.lock] = 0] /\ UNCHANGED <<readers, wq>>
      /\ Advance(t)
 
-Next == (\E t \in Threads : Pick(t) \/ Announce(t) \/ Step(t)) /\ UNCHANGED Protos
+Next == (\E t \in Threads : Pick(t) \/ Announce(t) \/ Step(t)) /\ UNCHANGED <<Protos, Views>>
 Spec == Init /\ [][Next]_vars
 
 Finished(t) == pc[t].p = 0 /\ pc[t].done = OpsPerThread
@@ -76,4 +83,59 @@ Enabled1(t) == (pc[t].p = 0 /\ pc[t].done < OpsPerThread)
 NoDeadlock == (\E t \in Threads : ~Finished(t)) => (\E t \in Threads : Enabled1(t))
 \* mutual exclusion sanity of the lock model itself
 LockSane == \A l \in LockNames : writer[l] # 0 => NoReaders(l)
+
+-----------------------------------------------------------------------------
+(* One view.  The result of these operations is ONE view of the chain state (property C17: "data read   *)
+(* under one view is mutually consistent"; mechanism: "read paths taking txhashset.read() only /        *)
+(* header_pmmr.read() then txhashset.read()", "header_pmmr -> txhashset -> batch held across the        *)
+(* pipeline and commit").  The recorded protocol of such a call must hold all locks of its view         *)
+(* TOGETHER at some point and, where once = TRUE, take each of them exactly once, so that no writer     *)
+(* can slip in between two parts of the view (a call that reads the output position under one           *)
+(* acquisition and the header MMR under another returns a header that need not contain the output).     *)
+V(L, o) == [locks |-> L, once |-> o]
+ViewTable ==
+  [ get_unspent |-> V({"tx"}, TRUE), get_output_pos |-> V({"tx"}, TRUE),
+    unspent_outputs_by_pmmr_index |-> V({"tx"}, TRUE),
+    get_header_by_height |-> V({"hp"}, TRUE),
+    get_header_for_output |-> V({"hp", "tx"}, TRUE), get_unspent_output_at |-> V({"hp", "tx"}, TRUE),
+    validate_tx |-> V({"hp", "tx"}, TRUE), validate_inputs |-> V({"hp", "tx"}, TRUE),
+    verify_coinbase_maturity |-> V({"hp", "tx"}, TRUE),
+    get_merkle_proof |-> V({"hp", "tx"}, TRUE), get_merkle_proof_for_pos |-> V({"tx"}, TRUE),
+    set_txhashset_roots |-> V({"hp", "tx"}, TRUE), set_prev_root_only |-> V({"hp"}, TRUE),
+    get_locator_hashes |-> V({"hp"}, TRUE),
+    validate_fast |-> V({"hp", "tx"}, TRUE), validate_full |-> V({"hp", "tx"}, TRUE),
+    segment_bitmap |-> V({"tx"}, TRUE), segment_output |-> V({"tx"}, TRUE),
+    segment_rangeproof |-> V({"tx"}, TRUE), segment_kernel |-> V({"tx"}, TRUE),
+    txhashset_read |-> V({"hp", "tx"}, TRUE),
+    process_block_header |-> V({"hp", "tx", "db"}, TRUE), sync_block_headers |-> V({"hp", "tx", "db"}, TRUE),
+    reset_chain_head |-> V({"hp", "tx", "db"}, TRUE),
+    compact |-> V({"hp", "tx", "db"}, FALSE) ]      \* (the archive header is looked up before the section)
+
+IsAcq(e) == e.op \in {"r_acq", "w_acq", "m_acq"}
+RECURSIVE HeldAfter(_, _)
+IsRel(e) == e.op \in {"r_rel", "w_rel", "m_rel"}
+HeldAfter(p, i) == IF i = 0 THEN {}
+                   ELSE IF IsAcq(p[i]) THEN HeldAfter(p, i - 1) \cup {p[i].lock}
+                   ELSE IF IsRel(p[i]) THEN HeldAfter(p, i - 1) \ {p[i].lock}
+                   ELSE HeldAfter(p, i - 1)
+AcqCount(p, lk) == Cardinality({i \in 1..Len(p) : IsAcq(p[i]) /\ p[i].lock = lk})
+OneView(p, v) == /\ \E i \in 1..Len(p) : v.locks \subseteq HeldAfter(p, i)
+                 /\ v.once => \A lk \in v.locks : AcqCount(p, lk) = 1
+\* every recorded call that has an entry in the table is one view ...
+ViewsOK == \A k \in 1..Len(Views) :
+             Views[k].op \in DOMAIN ViewTable =>
+               (OneView(Views[k].proto, ViewTable[Views[k].op]) \/ Print(<<"VIEW-SPLIT", Views[k].op>>, FALSE))
+\* Guarded resources.  A recorded protocol may contain spans [use_beg r .. use_end r] in which the thread uses a
+\* resource that is not a lock (hook events; today: "txfiles" = the live txhashset files being copied into the
+\* state archive by txhashset_read / zip_read).  All locks guarding the resource must be held through the whole
+\* span - an archive copied after the locks were released is a mixture of states as soon as a block, a rewind or
+\* a compaction touches the files meanwhile.
+Guards == [txfiles |-> {"tx"}]
+GuardedOK == \A k \in 1..Len(Views) : \A i \in 1..Len(Views[k].proto) :
+               LET e == Views[k].proto[i] IN
+               (e.op \in {"use_beg", "use_end"} /\ e.lock \in DOMAIN Guards) =>
+                 (Guards[e.lock] \subseteq HeldAfter(Views[k].proto, i) \/ Print(<<"UNGUARDED-USE", Views[k].op, e.lock>>, FALSE))
+\* ... and every entry of the table has been recorded (no vacuous entry)
+ViewsRecorded == \A o \in DOMAIN ViewTable :
+                   (\E k \in 1..Len(Views) : Views[k].op = o) \/ Print(<<"VIEW-NOT-RECORDED", o>>, FALSE)
 =============================================================================
